@@ -263,6 +263,44 @@ where
     if !(c1 && c2 && c3 && r1 && r2 && mid && mid2) || buf.as_bytes() != a || buf.capacity() < a.len() {
         t(bad, &format!("{name}.capacity_methods"));
     }
+    // provenance: a binary operation is a function of the bytes of its argument, not of where they live.  Every
+    // view the path hands out of its own storage (parent, ancestors, the remainder of its components taken from
+    // the back and from the front, file name / stem / extension) must be answered like an equal path allocated
+    // elsewhere
+    {
+        let mut views: Vec<&Path<T>> = Vec::new();
+        if let Some(x) = p.parent() {
+            views.push(x);
+        }
+        for x in p.ancestors() {
+            views.push(x);
+        }
+        let mut it = p.components();
+        while it.next_back().is_some() {
+            views.push(Path::<T>::new(it.as_bytes()));
+        }
+        let mut it = p.components();
+        while it.next().is_some() {
+            views.push(Path::<T>::new(it.as_bytes()));
+        }
+        for x in [p.file_name(), p.file_stem(), p.extension()].into_iter().flatten() {
+            views.push(Path::<T>::new(x));
+        }
+        for v in views {
+            let copy = PathBuf::<T>::from(v.as_bytes().to_vec());
+            let c: &Path<T> = copy.as_path();
+            let same = p.starts_with(v) == p.starts_with(c)
+                && p.ends_with(v) == p.ends_with(c)
+                && p.strip_prefix(v).ok().map(|x| x.as_bytes().to_vec()) == p.strip_prefix(c).ok().map(|x| x.as_bytes().to_vec())
+                && p.join(v).as_bytes() == p.join(c).as_bytes()
+                && (p == v) == (p == c)
+                && p.cmp(v) == p.cmp(c)
+                && v.starts_with(p) == c.starts_with(p);
+            if !same {
+                t(bad, &format!("{name}.aliased_argument"));
+            }
+        }
+    }
     // Borrow: same path, same hash, same order
     let owned = p.to_path_buf();
     let br: &Path<T> = owned.borrow();
@@ -336,6 +374,41 @@ where
     let ub: Utf8PathBuf<T> = unsafe { Utf8PathBuf::<T>::from_bytes_path_buf_unchecked(bp.to_path_buf()) };
     if ub.as_str() != s || Utf8PathBuf::<T>::from_bytes_path_buf(bp.to_path_buf()).ok().map(|x| x.into_string()) != Some(s.to_string()) {
         t(bad, &format!("{name}.from_bytes_path_buf_unchecked"));
+    }
+    // provenance (see byte_generic): views into the path's own storage answered like equal paths allocated elsewhere
+    {
+        let mut views: Vec<&Utf8Path<T>> = Vec::new();
+        if let Some(x) = p.parent() {
+            views.push(x);
+        }
+        for x in p.ancestors() {
+            views.push(x);
+        }
+        let mut it = p.components();
+        while it.next_back().is_some() {
+            views.push(Utf8Path::<T>::new(it.as_str()));
+        }
+        let mut it = p.components();
+        while it.next().is_some() {
+            views.push(Utf8Path::<T>::new(it.as_str()));
+        }
+        for x in [p.file_name(), p.file_stem(), p.extension()].into_iter().flatten() {
+            views.push(Utf8Path::<T>::new(x));
+        }
+        for v in views {
+            let copy = Utf8PathBuf::<T>::from(v.as_str().to_string());
+            let c: &Utf8Path<T> = copy.as_path();
+            let same = p.starts_with(v) == p.starts_with(c)
+                && p.ends_with(v) == p.ends_with(c)
+                && p.strip_prefix(v).ok().map(|x| x.as_str().to_string()) == p.strip_prefix(c).ok().map(|x| x.as_str().to_string())
+                && p.join(v).as_str() == p.join(c).as_str()
+                && (p == v) == (p == c)
+                && p.cmp(v) == p.cmp(c)
+                && v.starts_with(p) == c.starts_with(p);
+            if !same {
+                t(bad, &format!("{name}.aliased_argument"));
+            }
+        }
     }
     // capacity methods
     let mut buf = Utf8PathBuf::<T>::with_capacity(s.len() + 3);
